@@ -1,0 +1,60 @@
+//go:build verif
+
+package build
+
+import (
+	"os"
+	"strconv"
+	"sync"
+	"syscall"
+
+	"github.com/thought-machine/please/src/core"
+)
+
+// Crash injection for the verification harness (property C32). Inert unless PLZ_VERIF_C32_TARGET is set.
+//
+//	PLZ_VERIF_C32_TARGET  label of the one target whose build step is observed
+//	PLZ_VERIF_C32_LOG     file that receives one line "<op> <path>" per filesystem operation of that build step
+//	PLZ_VERIF_C32_KILL    n: the process SIGKILLs itself just before the n-th (0-based) operation
+var verifC32 struct {
+	sync.Mutex
+	init   bool
+	label  string
+	log    *os.File
+	killAt int
+	n      int
+}
+
+// verifOp is called immediately before a filesystem operation of the build step of target.
+func verifOp(target *core.BuildTarget, op, path string) {
+	v := &verifC32
+	v.Lock()
+	defer v.Unlock()
+	if !v.init {
+		v.init = true
+		v.label = os.Getenv("PLZ_VERIF_C32_TARGET")
+		v.killAt = -1
+		if s := os.Getenv("PLZ_VERIF_C32_KILL"); s != "" {
+			if n, err := strconv.Atoi(s); err == nil {
+				v.killAt = n
+			}
+		}
+		if p := os.Getenv("PLZ_VERIF_C32_LOG"); p != "" && v.label != "" {
+			v.log, _ = os.OpenFile(p, os.O_WRONLY|os.O_CREATE|os.O_APPEND, 0644)
+		}
+	}
+	if v.label == "" || target == nil || target.Label.String() != v.label {
+		return
+	}
+	if v.n == v.killAt {
+		if v.log != nil {
+			v.log.WriteString("KILL " + op + " " + path + "\n")
+		}
+		syscall.Kill(os.Getpid(), syscall.SIGKILL)
+		select {} // not reached: SIGKILL cannot be handled
+	}
+	v.n++
+	if v.log != nil {
+		v.log.WriteString(op + " " + path + "\n")
+	}
+}
